@@ -14,14 +14,15 @@ import (
 
 // ViolationRec is a violation as reported by a worker.
 type ViolationRec struct {
-	Desc     RunDesc  `json:"desc"` // Desc.Tape is the minimised tape
-	Sig      string   `json:"sig"`
-	Detail   string   `json:"detail"`
-	OrigLen  int      `json:"orig_tape_len"`
-	MinLen   int      `json:"min_tape_len"`
-	ShrinkN  int      `json:"shrink_candidates"`
-	Trace    []string `json:"trace"`
-	RunIndex uint64   `json:"run_index"`
+	Desc     RunDesc   `json:"desc"` // Desc.Tape is the minimised tape
+	Sig      string    `json:"sig"`
+	Detail   string    `json:"detail"`
+	OrigLen  int       `json:"orig_tape_len"`
+	MinLen   int       `json:"min_tape_len"`
+	ShrinkN  int       `json:"shrink_candidates"`
+	Trace    []string  `json:"trace"`
+	RunIndex uint64    `json:"run_index"`
+	History  *HistSpec `json:"history,omitempty"`
 }
 
 // ScenStat aggregates per scenario.
@@ -330,7 +331,12 @@ func replayMain() int {
 		fmt.Fprintln(os.Stderr, "unknown scenario", rf.Desc.Scen)
 		return 4
 	}
-	res := runOne(p, sc, rf.Desc, rf.Thorough)
+	var res RunResult
+	if rf.History != nil {
+		res = replayHistory(p, rf.History, rf.Desc, rf.Thorough)
+	} else {
+		res = runOne(p, sc, rf.Desc, rf.Thorough)
+	}
 	out := map[string]interface{}{"harness": res.HarnessE, "trace": res.Detail}
 	if res.Viol != nil {
 		out["sig"] = res.Viol.Sig
@@ -354,6 +360,44 @@ type ReplayFile struct {
 	Detail   string   `json:"detail"`
 	Trace    []string `json:"trace"`
 	Note     string   `json:"note,omitempty"`
+	// History, when set, says that the run only fails after the runs the same worker process
+	// executed before it (state the library keeps process-wide): the replay re-executes them.
+	History *HistSpec `json:"history,omitempty"`
+}
+
+// HistSpec identifies a worker's deterministic sequence of runs.
+type HistSpec struct {
+	Base uint64 `json:"base_seed"`
+	WIdx int    `json:"worker"`
+	WN   int    `json:"workers"`
+}
+
+// replayHistory re-executes, in order, every run the worker (h) executed up to and including
+// the run d. Outcomes of the earlier runs are ignored: they only set the stage.
+func replayHistory(p *Property, h *HistSpec, d RunDesc, thorough bool) RunResult {
+	for _, sc := range p.Scenarios {
+		if sc.SweepN == nil || (!thorough && !sc.QuickSweep) {
+			continue
+		}
+		n := sc.SweepN(thorough)
+		for k := h.WIdx; k < n; k += h.WN {
+			rd := RunDesc{Prop: p.ID, Scen: sc.Name, Case: k, Seed: mixSeed(h.Base, p.ID, "sweep/"+sc.Name, uint64(k))}
+			res := runOne(p, sc, rd, thorough)
+			if rd.Scen == d.Scen && rd.Case == d.Case && rd.Seed == d.Seed {
+				return res
+			}
+		}
+	}
+	for i := uint64(h.WIdx); i < 1<<24; i += uint64(h.WN) {
+		seed := mixSeed(h.Base, p.ID, "seeded", i)
+		sc := p.pickScenario(seed)
+		rd := RunDesc{Prop: p.ID, Scen: sc.Name, Case: -1, Seed: seed}
+		res := runOne(p, sc, rd, thorough)
+		if rd.Scen == d.Scen && d.Case == -1 && rd.Seed == d.Seed {
+			return res
+		}
+	}
+	return RunResult{HarnessE: "history replay: the recorded run is not in the worker's sequence"}
 }
 
 // ---------------------------------------------------------------- shrinking
